@@ -59,8 +59,10 @@ def cases(tier, seed):
                 yield {"fam": "enum", "k": k, "j": j, "rep": rep}
     for i in range(200 if tier == "quick" else 6000):
         yield {"fam": "sampled", "i": i}
-    for i in range(150 if tier == "quick" else 2000):
+    for i in range(200 if tier == "quick" else 2000):
         yield {"fam": "undefined", "i": i}
+    for i in range(60 if tier == "quick" else 600):
+        yield {"fam": "wide", "i": i}
 
 
 def setup(ctx):
@@ -160,8 +162,35 @@ def run_defs(ctx, gdef, k, idx, it):
         ctx.sample({"input": it, "groups": gdef, "pred": pred if pred.size < 40 else "(%s)" % (pred.shape,), "tp": {k2: v["tp"] for k2, v in grouped.items()}})
 
 
+def wide_labels(ctx, i):
+    """group labels that do not fit the arrays' dtype (e.g. 260 with uint8 maps): such a group is simply empty,
+    and no voxel of another group may leak into it"""
+    r = gen.rng(ctx.seed, "c12w", i)
+    it = ["UNMATCHED_INSTANCE", "SEMANTIC", "MATCHED_INSTANCE"][i % 3]
+    pred, refa, _ = label_map(ctx.seed, 9000 + i, 4, np.uint8, it)
+    big = [260, 257, 256 + 3, 512 + 2][i % 4]  # wraps onto 4, 1, 3, 2 if cast to uint8
+    gdef = {"small": {"labels": [1, 2, 3, 4], "kind": ["plain", "merge"][i % 2], "single": False},
+            "wide": {"labels": [big, big + 256], "kind": ["plain", "merge"][(i // 2) % 2], "single": False}}
+    cfg = {"input": it, "matcher": None if it == "MATCHED_INSTANCE" else {"kind": "naive", "metric": "IOU", "thr": 0.5}, "groups": gdef, "global": ["DSC"]}
+    res = meta.run_all_groups(cfg, pred, refa)
+    ctx.count("evaluations")
+    ctx.count("f:C12.group_label_outside_dtype")
+    det = {"pred": pred, "ref": refa, "groups": gdef, "cfg": cfg}
+    if "ERR" in res:
+        ctx.viol("grouped_evaluate_raised", dict(det, exc=res["ERR"]), features={"input": it, "wide_labels": True})
+        return
+    ctx.count("C12.groups_judged")
+    ctx.nontrivial("wide", gen.arr_key(pred, refa), big, it)
+    w = res["wide"]
+    if w["num_ref_instances"] != 0 or w["num_pred_instances"] != 0 or w["tp"] != 0:
+        ctx.viol("group_result_differs_from_restricted_evaluation", dict(det, group="wide", result={k: w[k] for k in ("num_ref_instances", "num_pred_instances", "tp")}),
+                 features={"input": it, "kind": "plain", "wide_labels": True})
+
+
 def run(case, ctx):
     fam = case["fam"]
+    if fam == "wide":
+        return wide_labels(ctx, case["i"])
     if fam == "enum":
         k, j, rep = case["k"], case["j"], case["rep"]
         gdef = DEFS[k][j]
@@ -193,11 +222,19 @@ def run(case, ctx):
     pred, refa, _ = label_map(ctx.seed, 5000 + i, k, np.uint8, it)
     bad = int(r.choice([k + 1, k + 7, 200, 255]))
     where = ["pred", "ref", "both"][(i // 3) % 3]
+    full = i % 4 == 1  # no background voxel at all; the undefined label is then the smallest value in the map
+    if full:
+        gdef = {n: dict(g, labels=[l + 1 for l in g["labels"]]) for n, g in gdef.items()}  # groups use labels 2..k+1
+        pred, refa = pred + 1, refa + 1  # every voxel labelled; label 1 belongs to no group
+        bad = 1
+        ctx.count("f:C12.undefined_label_in_map_without_background")
     for arr, name in ((pred, "pred"), (refa, "ref")):
         if where in (name, "both"):
             n = int(r.integers(1, 4))
             for _ in range(n):
                 arr[tuple(int(r.integers(0, s)) for s in arr.shape)] = bad
+        elif full:
+            arr[arr == 1] = 2
     cfg = {"input": it, "matcher": None if it == "MATCHED_INSTANCE" else {"kind": "naive", "metric": "IOU", "thr": 0.5}, "groups": gdef}
     res = meta.run_all_groups(cfg, pred, refa)
     ctx.count("evaluations")
